@@ -857,7 +857,8 @@ namespace awkward {
 
   const ContentPtr
   UnmaskedArray::fillna(const ContentPtr& value) const {
-    return content_.get()->fillna(value);
+    // nothing is missing at this level; missing values deeper down are not this call's
+    return content_;
   }
 
   const ContentPtr
